@@ -5,8 +5,6 @@ pub open spec fn byte_len(s: Seq<char>) -> int decreases s.len() { if s.len() ==
 // k is the byte offset of the n-th character boundary
 pub open spec fn boundary_at(s: Seq<char>, k: int, n: int) -> bool { 0 <= n <= s.len() && byte_len(s.take(n)) == k }
 pub open spec fn boundary(s: Seq<char>, k: int) -> bool { exists|n: int| boundary_at(s, k, n) }
-// std: String::len is the length in bytes
-pub assume_specification [String::len] (s: &String) -> (r: usize) ensures r == byte_len(s@);
 // R14/R19 stubs: the std operations, with their panic conditions as preconditions
 #[verifier::external_body]
 pub const fn str_len(s: &str) -> (r: usize) ensures r == byte_len(s@) { s.len() }
